@@ -215,6 +215,8 @@ def sym_kernel(ex, path, kernel, arglist, srcfile):
     for a in args:
         if isinstance(a, Buf):
             O[a.name] = objs[a.name].cells
+    O['__written__'] = {n: o.written for n, o in objs.items()}
+    O['__globals_written__'] = sorted(g for g, p in ex.cur_globals.items() if p.obj.written)
     return O
 
 
@@ -276,6 +278,8 @@ class Family:
         for a in args:
             if isinstance(a, Buf):
                 O[a.name] = objs[a.name].cells
+        O['__written__'] = {n: o.written for n, o in objs.items()}
+        O['__globals_written__'] = sorted(g for g, p in ex.cur_globals.items() if p.obj.written)
         return O
 
     def native(self, ctx, inst, Ic):
